@@ -127,6 +127,7 @@ package main
 
 // The speaker-membership view (assumed to be the same value on every speaker: "cluster view shared by the speakers").
 //@ func (SpeakerList).UsableSpeakers
+//@   trusted
 //@   pure
 
 // NodeOK: the per-node part of eligibility.
